@@ -2,8 +2,9 @@
 \* expected to report WriterVariant violated (the loop never ends for n < 0).
 SPECIFICATION Spec
 CONSTANTS
-  ReaderInputs <- None
+  ReaderInputs <- NoStreams
   WriterInputs <- NegativeOnly
+  WriterDigits = 0
   RejectNegative = FALSE
   OutCap = 16
   Emit = FALSE
